@@ -38,6 +38,8 @@ type Contract struct {
 	Replay   string
 	DynTypes []string // result's possible dynamic types (for interface-typed results)
 	Effects  []Effect
+	Invokes  string   // name of a function-typed parameter that is called exactly once, before any other effect
+	Sets     []Effect // ghost fact definitions: @fact := expr (over results / post-state), assigned at return
 	File     string
 	Line     int
 	used     bool
@@ -607,6 +609,21 @@ func (g *Gen) loadContractFile(path, pkgPath string, pkg *types.Package) error {
 				return fmt.Errorf("%s:%d: %v", path, l.line, err)
 			}
 			cur.Effects = append(cur.Effects, Effect{Var: m[1], Expr: e, Text: rest})
+		case "invokes":
+			if cur == nil {
+				return fmt.Errorf("%s:%d: invokes outside func", path, l.line)
+			}
+			cur.Invokes = rest
+		case "sets":
+			m := regexp.MustCompile(`^@([A-Za-z_][A-Za-z0-9_]*)\s*:=\s*(.*)$`).FindStringSubmatch(rest)
+			if m == nil || cur == nil {
+				return fmt.Errorf("%s:%d: sets @fact := expr", path, l.line)
+			}
+			e, err := parseExpr(m[2])
+			if err != nil {
+				return fmt.Errorf("%s:%d: %v", path, l.line, err)
+			}
+			cur.Sets = append(cur.Sets, Effect{Var: m[1], Expr: e, Text: rest})
 		case "replay":
 			cur.Replay = rest
 		case "dyntypes":
@@ -705,6 +722,25 @@ func (g *Gen) expandMacros(e *Expr, depth int) *Expr {
 		}
 	}
 	return &n
+}
+
+// ghostsWithin: every call-log ghost of e belongs to the given name (e.g. "#f").
+func ghostsWithin(e *Expr, name string) bool {
+	if e == nil {
+		return true
+	}
+	if e.Op == "ghost" && e.Name != name && !strings.HasPrefix(e.Name, name+".") {
+		return false
+	}
+	if !ghostsWithin(e.X, name) || !ghostsWithin(e.Y, name) {
+		return false
+	}
+	for _, a := range e.Args {
+		if !ghostsWithin(a, name) {
+			return false
+		}
+	}
+	return true
 }
 
 func hasGhost(e *Expr) bool {
